@@ -148,32 +148,7 @@ def run(ctx):
         ctx.ob("R06.1", "format_env.key=value", okj, cf.loc(0), "each environment string is built as <key> \"=\" <value> from one (key, value) pair")
     ctx.floor("R06.1", "format_env joining sites", joins, 1)
 
-    # R06.6 contradiction rule on the de-duplication idiom: filtering with `seen.insert(key)` keeps the FIRST occurrence in
-    # iteration order; "the later of duplicate names wins, in the original order" then requires the iteration to be
-    # reversed before the filter and the result reversed back.  (If the function does not use this idiom at all, the
-    # de-duplication is not decided here — a note, not an alarm.)
-    Tfe = M.Terms(fe)
-    filt = fe.calls_to(lambda f: M.callee_str(f) == "std::iter::Iterator::filter")
-    first_wins = None
-    for bb_, t_ in filt:
-        pred_ = Tfe.operand(t_["args"][1])
-        if pred_[0] == "agg" and pred_[1][0] == "closure" and pred_[1][1] in prog.fns:
-            pc_ = prog.fns[pred_[1][1]]
-            r0_ = M.Terms(pc_).local(0)
-            if r0_[0] == "call" and r0_[1].endswith("HashSet::<T, S, A>::insert") and "0" in M.term_str(r0_[2][1]):
-                first_wins = (bb_, t_)
-    if first_wins is None:
-        ctx.note("format_env does not use the filter(seen.insert(key)) idiom: duplicate handling is not decided statically")
-    else:
-        src_ = Tfe.operand(first_wins[1]["args"][0])
-        rev_before = src_[0] == "call" and src_[1] == "std::iter::Iterator::rev"
-        revs = fe.calls_to(lambda f: M.callee_str(f) in ("core::slice::<impl [T]>::reverse",))
-        col = fe.calls_to(lambda f: M.callee_str(f) == "std::iter::Iterator::collect")
-        rev_after = len(revs) == 1 and len(col) == 1 and dominated_by_blocks(fe, revs[0][0], [col[0][0]]) and all(dominated_by_blocks(fe, r_, [revs[0][0]]) for r_ in fe.return_blocks())
-        ctx.ob("R06.6", "format_env.dedup-keeps-last", rev_before, fe.loc(first_wins[0]),
-               "filter(seen.insert(key)) keeps the first occurrence in iteration order; for the LATER duplicate to win the iteration must be reversed first (.rev() before .filter())")
-        ctx.ob("R06.6", "format_env.original-order-restored", rev_before and rev_after, fe.loc(first_wins[0]),
-               "after de-duplicating in reverse the vector must be reversed back on every path, or the environment is handed over in reverse order")
+    dedup_idiom(ctx, prog, fe, "R06.6", "format_env")
 
     # ---- R06.2 C strings only from the NUL-checking constructor -------------
     bad_ctors = ("from_vec_unchecked", "from_raw", "from_bytes_with_nul_unchecked", "from_vec_with_nul_unchecked", "from_ptr")
@@ -303,3 +278,43 @@ def run(ctx):
             v = Tb.rvalue(st[0][2]["r"])
             ok = v[0] == "agg" and v[1][:3] == ("adt", "std::option::Option", "Some") and v[2][0] == ("param", 2, f.local_name(2))
         ctx.ob("R06.4", "builder.%s" % field, ok, f.loc(0), "Exec::%s must store Some(arg) into config.%s only" % (field, field))
+
+
+def dedup_idiom(ctx, prog, fe, rule, name, key_pred=None):
+    """contradiction rule on the de-duplication idiom: filtering with `seen.insert(key)` keeps the FIRST occurrence in
+    iteration order; "the later of duplicate names wins, in the original order" then requires the iteration to be
+    reversed before the filter and the result reversed back.  (If the function does not use this idiom at all, the
+    de-duplication is not decided here — a note, not an alarm.)  key_pred: optional check of the inserted key term."""
+    Tfe = M.Terms(fe)
+    filt = fe.calls_to(lambda f: M.callee_str(f) == "std::iter::Iterator::filter")
+    first_wins = None
+    key_term = None
+    for bb_, t_ in filt:
+        pred_ = Tfe.operand(t_["args"][1])
+        if pred_[0] == "agg" and pred_[1][0] == "closure" and pred_[1][1] in prog.fns:
+            pc_ = prog.fns[pred_[1][1]]
+            r0_ = M.Terms(pc_).local(0)
+            if r0_[0] == "call" and "HashSet::<T, S" in r0_[1] and r0_[1].endswith("::insert") and "0" in M.term_str(r0_[2][1]):
+                first_wins = (bb_, t_)
+                key_term = r0_[2][1]
+    if first_wins is None:
+        ctx.note("%s does not use the filter(seen.insert(key)) idiom: duplicate handling is not decided statically" % name)
+        return None
+    src_ = Tfe.operand(first_wins[1]["args"][0])
+    rev_before = src_[0] == "call" and src_[1] == "std::iter::Iterator::rev"
+    revs = fe.calls_to(lambda f: M.callee_str(f).endswith("core::slice::<impl [T]>::reverse"))
+    col = fe.calls_to(lambda f: M.callee_str(f) == "std::iter::Iterator::collect")
+    rev_after = len(revs) == 1 and len(col) == 1 and dominated_by_blocks(fe, revs[0][0], [col[0][0]]) and all(dominated_by_blocks(fe, r_, [revs[0][0]]) for r_ in fe.return_blocks())
+    ctx.ob(rule, "%s.dedup-keeps-last" % name, rev_before, fe.loc(first_wins[0]),
+           "filter(seen.insert(key)) keeps the first occurrence in iteration order; for the LATER duplicate to win the iteration must be reversed first (.rev() before .filter())")
+    ctx.ob(rule, "%s.original-order-restored" % name, rev_before and rev_after, fe.loc(first_wins[0]),
+           "after de-duplicating in reverse the vector must be reversed back on every path, or the environment is handed over in reverse order")
+    if key_pred is not None:
+        ctx.ob(rule, "%s.dedup-key" % name, key_pred(key_term), fe.loc(first_wins[0]), "the de-duplication key is %s" % M.term_str(key_term)[:120])
+    return key_term
+
+
+def run_thorough(ctx):
+    # the cfg(windows) sibling of format_env, analysed on the windows-msvc build
+    import winrules
+    winrules.c06_env_block(ctx)
